@@ -427,22 +427,11 @@ def r14(db, ctx):
                 probs.append(f'offset = {X.show(e, 100)}, expected col * rows + row')
         elif kind == 'count':
             # index = j * rows + i with rows = data.rows() - wrap, guard index < len
-            found = False
-            for bi in range(len(f.blocks)):
-                t = f.term(bi)
-                if t['k'] == 'switch' and t.get('discr_ty') == 'bool':
-                    d = norm(R.operand(t['discr']))
-                    if d[0] == 'bin' and d[1] == 'Lt':
-                        l = X.lin(d[2])
-                        ks = list(l)
-                        if len(l) == 2 and all(v == 1 for v in l.values()) and any(k.startswith('(') and 'DenseMatrix::rows' in k and 'wrap' in k for k in ks) and common.is_call_to(d[3], '::len'):
-                            found = True
-            if not found:
-                # iterator form: the counted cells come from a pipeline (possibly built by a private `impl Iterator` helper) that visits
-                # data[i][j] for i in 0..rows-wrap, every column j, and keeps a cell only under j*(rows - wrap) + i < len
-                found = _count_pipeline_ok(db, f)
-            if not found:
-                probs.append('no guard of the form j*(rows - wrap) + i < len')
+            # the counted cells are data[i][j] for i in 0..rows-wrap (not the look-ahead rows, which repeat cells of the first rows: seed
+            # C04-5), every column j, kept only under j*(rows - wrap) + i < len — as nested loops, or as a pipeline (possibly built by a
+            # private `impl Iterator` helper)
+            if not _count_pipeline_ok(db, f):
+                probs.append('the counted cells are not data[i][j] for i in 0..rows - wrap, every column j, under the guard j*(rows - wrap) + i < len')
         if probs:
             ctx.fail('R1.4', f, 'layout formula', '; '.join(probs))
         else:
@@ -475,11 +464,21 @@ def _count_pipeline_ok(db, f):
     is_cell = lambda x: m(('at', ('at', '$d', '$i'), '$j'), x) is not None and x[1][1] == data and IA.is_pos(x[1][2]) and IA.is_pos(x[2])
     cells = []
     # count_symbols: counts[cell.as_index()] += 1 in a loop over the pipeline (or in a for_each closure); count_symbol: pipeline.filter(..).count()
+    loop_filters = []
+
+    def guards_at(g_, Rg_, blk, sub=None):
+        for rel in G.relations(g_, Rg_, blk):
+            if rel[0] in ('eq', 'ne', 'lt', 'le', 'gt', 'ge') and len(rel) > 2:
+                a_, b_ = norm(rel[1]), norm(rel[2])
+                if sub:
+                    a_, b_ = RD._subst(a_, sub), RD._subst(b_, sub)
+                loop_filters.append((rel[0], C.canon(a_), C.canon(b_)))
     for s_ in X.stores(f, R):
         tg = C.canon(s_['target'])
         b = m(('at', '_', ('call~', 'as_index', ('$cell',))), tg)
         if b is not None:
             cells.append(b['$cell'])
+            guards_at(f, R, s_['block'])
     for bi, t in f.calls():
         if (f.callee_short(t) or '').endswith('Iterator::for_each') and len(t['args']) == 2:
             e_ = norm(R.call(t))
@@ -496,6 +495,29 @@ def _count_pipeline_ok(db, f):
                 b = m(('at', '_', ('call~', 'as_index', ('$cell',))), tg)
                 if b is not None:
                     cells.append(b['$cell'])
+                    guards_at(g, Rg, s_['block'], {('p', 2): el[0]})
+    # visitor form: a (formerly separate, now inlined) helper walks the cells and calls a closure of this function with each one; the closure
+    # counts what it is given: `counts[x.as_index()] += 1`, or `if x == symbol { count += 1 }`
+    own = {g.path: g for g in db.closures_of(f)}
+    for bi, t in f.calls():
+        if (f.callee_short(t) or '').endswith(('FnMut::call_mut', 'Fn::call', 'FnOnce::call_once')) and len(t['args']) == 2:
+            tup = norm(R.at(bi).operand(t['args'][1]))
+            if not (tup[0] == 'agg' and len(tup[2]) == 1):
+                continue
+            counts_it = False
+            for g in own.values():
+                Rg = X.Rec(g)
+                for s_ in X.stores(g, Rg):
+                    tg, val = norm(s_['target']), norm(s_['value'])
+                    if val != ('bin', 'Add', tg, ('k', 1)):
+                        continue
+                    if m(('at', '_', ('call~', 'as_index', (('p', 2),))), C.canon(tg)) is not None:
+                        counts_it = True
+                    if any(r_[0] == 'eq' and ('p', 2) in (norm(r_[1]), norm(r_[2])) for r_ in G.relations(g, Rg, s_['block']) if len(r_) > 2):
+                        counts_it = True
+            if counts_it:
+                cells.append(C.canon(tup[2][0]))
+                guards_at(f, R, bi)
     e = common.return_expr_single_path_allow(f)
     if e is not None:
         red = RD.of_expr(C, norm(e))
@@ -503,6 +525,14 @@ def _count_pipeline_ok(db, f):
             cs = [x for x in X.walk(red['term']) if is_cell(x)]
             if cs:
                 cells.append(cs[0])
+    if not cells and e is not None:
+        # count_symbol, loop form: `if index < len && cell == symbol { count += 1 }` with the counter returned
+        for l_ in RD.loops_in(db, f, R, C):
+            if norm(e) == ('v', l_['local']) and l_['op'] == 'add' and l_['term'] == ('k', 1) and l_['single_exit']:
+                guards_at(f, R, l_['block'])
+                for rel in loop_filters:
+                    if rel[0] == 'eq':
+                        cells.extend(x for x in rel[1:3] if is_cell(x))
     cells = [c_ for c_ in cells if is_cell(c_)]
     if len(cells) != 1:
         return False
@@ -516,6 +546,9 @@ def _count_pipeline_ok(db, f):
     if not (rows_ok and cols_ok):
         return False
     want = ('bin', 'Add', ('bin', 'Mul', pj, Rrows), pi)
+    for rel in loop_filters:
+        if rel[0] == 'lt' and X.lin_eq(rel[1], want) and (common.is_call_on(rel[2], 'StripedSequence::len', ('p', 1)) or norm(rel[2]) == ('fld', ('p', 1), 'length')):
+            return True
     for L, conds in C.filters.items():
         for cnd in conds:
             alts = G.expr_alternatives(cnd, True)
@@ -632,3 +665,8 @@ def run(db, ctx):
     r15(db, ctx)
     r16(db, ctx)
     r17(db, ctx)
+    # every kernel reads rows r .. r + M - 1 of the striped matrix for result row r, the last M - 1 of them in the look-ahead rows: those must
+    # be the right copies (cell (R + i, j) = cell (i, j + 1)), and rows() - wrap must stay the number of sequence rows (seeds C01-1, C01-3)
+    from . import C04
+    common.shared_rule(db, ctx, C04.r45, 'R1.8', 'the look-ahead rows the kernels read past the last sequence row are what configure_wrap put there: '
+                       'R = rows - wrap before resizing, resize to rows + m - wrap, cell(R+i, j) := cell(i, j+1), last column default, wrap := m (shared with R4.5)', ['R4.5'])
